@@ -118,7 +118,7 @@ impl<'a> PGen<'a> {
     }
 
     fn num_lit(&mut self) -> E {
-        match self.rng.below(12) {
+        match self.rng.below(13) {
             0 => numf("0.5"),
             1 => numf("2.25"),
             2 => numf("1e3"),
@@ -127,6 +127,13 @@ impl<'a> PGen<'a> {
             5 => numf("1_000"),
             6 => numf(*self.rng.pick(&["1234.5", "1e6", "0.00001", "123456789", "2500", "1e21"])),
             7 => numf(*self.rng.pick(&["1.3", "0.7", "9.9", "1.01", "0.3", "2.675"])),
+            8 => match self.rng.below(4) {
+                // not-a-number and the infinities
+                0 => bin("/", num(0), num(0)),
+                1 => bin("/", num(1), num(0)),
+                2 => bin("-", id("inf"), id("inf")),
+                _ => call(id("sqrt"), vec![num(-1)]),
+            },
             _ => num(self.rng.range(0, 12)),
         }
     }
@@ -357,7 +364,7 @@ impl<'a> PGen<'a> {
                 9 => call(id("replace"), vec![self.expr(T::Str, d1), st("a"), st("bb")]),
                 _ => cond(self.expr(T::Bool, d1), self.expr(T::Str, d1), self.expr(T::Str, d1)),
             },
-            T::Bool => match self.rng.below(12) {
+            T::Bool => match self.rng.below(14) {
                 0 => self.leaf(T::Bool),
                 1 | 2 | 3 => bin(*self.rng.pick(CMP), self.expr(T::Num, d1), self.expr(T::Num, d1)),
                 4 => bin(*self.rng.pick(&["and", "or", "&&", "||"]), self.expr(T::Bool, d1), self.expr(T::Bool, d1)),
@@ -366,6 +373,18 @@ impl<'a> PGen<'a> {
                 7 => {
                     let p = self.pred(d1);
                     call(id(*self.rng.pick(&["every", "some"])), vec![self.expr(T::LNum, d1), p])
+                }
+                8 | 12 | 13 if self.rng.chance(2, 3) => {
+                    // one sub-expression written twice (equality with itself, membership of
+                    // itself, uniqueness of two copies)
+                    let t = *self.rng.pick(&[T::LNum, T::Rec, T::LX, T::Num, T::Str]);
+                    let sub = self.expr(t, d1);
+                    match self.rng.below(4) {
+                        0 => bin(".==", sub.clone(), sub),
+                        1 => call(id("includes"), vec![E::List(vec![sub.clone()]), sub]),
+                        2 => bin(".==", call(id("len"), vec![call(id("unique"), vec![E::List(vec![sub.clone(), sub])])]), num(1)),
+                        _ => bin(".==", E::Rec(vec![RK::Static("k".into(), sub.clone())]), E::Rec(vec![RK::Static("k".into(), sub)])),
+                    }
                 }
                 8 => bin(".==", self.any(d1), self.any(d1)),
                 10 | 11 => {
